@@ -130,6 +130,12 @@ def run(S):
         'literal tokens start and end with a non-blank character (string quotes, raw fences, digits, identifier characters, label brackets)',
         'one character of context on each side of the literal suffices because strip_trailing_whitespace is line-local (decided in C11/C03 obligations)',
     ]
+    # literals in documents with other line-end styles (CR LF, lone CR, mixed): the string / raw / number tokens of the output are those of the source
+    # (up to the two open known findings: blanks and CR directly before a line feed inside a literal are deleted by the post-processing)
+    wl = literal_sweep(S)
+    S.validation['native_literal_sweep'] = 'clean' if not wl else wl['what']
+    if wl:
+        S.violation('C10:native:literal-changed', '%s (found by the native sweep of the real library)' % wl['what'], dict(api=wl))
     # the library skeleton: every entry point builds its formatter through Typstyle::new, which must keep the configuration (the reorder flag among it),
     # and returns exactly strip(render(..)) - nothing is done to the text (and so to the literals in it) after the post-processing
     from . import libskel as _ls
@@ -316,4 +322,42 @@ def confirm_raw(S, info):
             if a[0] == 'ok' and b[0] == 'ok' and a[1:] != b[1:]:
                 return dict(api='Typstyle::format_content', source=src, width=w, output=out,
                             what='raw text changed: %s -> %s (lines %r -> %r)' % (show(src), show(out), [unhexs(x) for x in a[1:]], [unhexs(x) for x in b[1:]]))
+    return None
+
+
+LITERAL_DOCS = [
+    '= Title\r\n#let s = "a\nb"\r\n#s\r\n', '\r\n#"\n"', '#let s = "a\nb"\r\ntext\r\n', 'x\r#let s = "a\nb"\r', '#f("a\nb", `c\nd`)\r\n', 'a\r\n```\nraw\nlines\n```\r\n',
+    '#let s = "a\nb"\n#let t = "c\r\nd"\n', '$ "a\nb" $\r\n', '#(k: "a\nb")\r\n#[x "a\nb"]\r\n', '#let n = 1.50e3\r\n#let u = 2.0em\r\n<lab>\r\n@ref\r\n', 'a\u2028#let s = "x\ny"\u2028',
+]
+
+
+def literal_sweep(S):
+    from .adjacency import leaves
+    import re as _re
+    kinds = ('Str', 'Int', 'Float', 'Numeric', 'Label', 'RefMarker', 'Link', 'Escape', 'Ident')
+
+    def known(t):
+        # the open known findings: blanks / CR directly before a line feed inside a literal are deleted
+        return _re.sub(r'[ \t\r]+(?=\n)', '', t)
+    for src in LITERAL_DOCS:
+        err, toks = leaves(S, src)
+        if err or toks is None:
+            continue
+        for w in (80, 0):
+            r = S.driver.call('format', hexs(src), w, 2, 0)
+            if r[0] != 'ok':
+                continue
+            out = unhexs(r[1])
+            err2, toks2 = leaves(S, out)
+            if err2 or toks2 is None:
+                continue
+            a = [(k, t) for k, t in toks if k in kinds]
+            b = [(k, t) for k, t in toks2 if k in kinds]
+            if len(a) != len(b) or any(ka != kb or (tb != ta and tb != known(ta)) for (ka, ta), (kb, tb) in zip(a, b)):
+                bad = next(((x, y) for x, y in zip(a, b) if x != y and y[1] != known(x[1])), (a, b))
+                return dict(api='Typstyle::format_content', source=src, width=w, output=out,
+                            what='a literal of %s changes when formatted (width %d): %r -> %r' % (show(src), w, bad[0], bad[1]))
+            ra, rb = S.driver.call('rawtexts', hexs(src)), S.driver.call('rawtexts', r[1])
+            if ra[0] == 'ok' and rb[0] == 'ok' and [known(unhexs(x)) for x in ra[1:]] != [known(unhexs(x)) for x in rb[1:]]:
+                return dict(api='Typstyle::format_content', source=src, width=w, output=out, what='the text of a raw element of %s changes when formatted (width %d)' % (show(src), w))
     return None
